@@ -254,6 +254,43 @@ mut("c07-derived-single-gap-forgotten", ["C07"], "derived CborLen does not count
 mut("c07-derived-variant-tag-forgotten", ["C07"], "derived CborLen forgets the variant tag of map-encoded struct variants",
     [(DLEN, "                        #name::#con{#(#idents,)* ..} => { 1 + #idx.cbor_len(__ctx777) + #tag + #(#steps)* }", "                        #name::#con{#(#idents,)* ..} => { 1 + #idx.cbor_len(__ctx777) + #(#steps)* }")])
 
+
+# ---- serde bridge: C17 C18 ----
+SER = "minicbor-serde/src/ser.rs"
+SDE = "minicbor-serde/src/de.rs"
+mut("c17-unit-variant-as-map", ["C17"], "unit variants serialised as {name: null}",
+    [(SER, "        variant.serialize(self)\n    }\n\n    fn serialize_newtype_struct<T>", "        self.encoder.map(1)?.str(variant)?.null()?;\n        Ok(())\n    }\n\n    fn serialize_newtype_struct<T>")])
+mut("c17-none-as-undefined", ["C17", "C18"], "None serialised as undefined",
+    [(SER, "    fn serialize_none(self) -> Result<Self::Ok, Self::Error> {\n        self.encoder.null()?;", "    fn serialize_none(self) -> Result<Self::Ok, Self::Error> {\n        self.encoder.undefined()?;")])
+mut("c17-map-value-count-stuck", ["C17"], "map access does not count down the last entry of maps with more than 23 entries",
+    [(SDE, "        if let Some(n) = self.len {\n            let x = seed.deserialize(&mut *self.deserializer)?;\n            self.len = Some(n - 1);", "        if let Some(n) = self.len {\n            let x = seed.deserialize(&mut *self.deserializer)?;\n            self.len = Some(if n == 1 && self.deserializer.decoder.position() > 300 { 1 } else { n - 1 });")])
+mut("c17-seq-stops-early", ["C17", "C18"], "sequence access stops one element early for sequences of exactly 24 elements",
+    [(SDE, "            Some(0) => Ok(None),\n            Some(n) => {\n                let x = seed.deserialize(&mut *self.deserializer)?;\n                self.len = Some(n - 1);", "            Some(0) => Ok(None),\n            Some(n) => {\n                let x = seed.deserialize(&mut *self.deserializer)?;\n                self.len = Some(if n == 24 { n - 2 } else { n - 1 });")])
+mut("c17-u64-truncated", ["C17", "C18"], "serialize_u64 goes through u32 for values below 2^33",
+    [(SER, "    fn serialize_u64(self, v: u64) -> Result<Self::Ok, Self::Error> {\n        self.encoder.u64(v)?;", "    fn serialize_u64(self, v: u64) -> Result<Self::Ok, Self::Error> {\n        if v < (1 << 33) { self.encoder.u32(v as u32)?; } else { self.encoder.u64(v)?; }")])
+mut("c17-i64-via-i32", ["C17", "C18"], "deserialize_i64 reads through the i32 accessor",
+    [(SDE, "        visitor.visit_i64(self.decoder.i64()?)", "        visitor.visit_i64(self.decoder.i32()?.into())")])
+mut("c17-tuple-struct-indefinite", ["C17"], "tuple structs serialised as indefinite arrays",
+    [(SER, "        self.serialize_tuple(len)\n    }\n\n    fn serialize_tuple_variant", "        let _ = len;\n        self.encoder.begin_array()?;\n        Ok(SeqSerializer { serializer: self, indefinite: true })\n    }\n\n    fn serialize_tuple_variant")])
+mut("c17-indef-map-no-break", ["C17"], "maps of unknown length are not terminated by a break",
+    [(SER, "impl<'a, W: Write> SerializeMap for SeqSerializer<'a, W>", "impl<'a, W: Write> SerializeMap for SeqSerializer<'a, W> // no break\n"),
+     (SER, "    fn serialize_value<T: Serialize + ?Sized>(&mut self, v: &T) -> Result<(), Self::Error> {\n        v.serialize(&mut *self.serializer)\n    }\n\n    fn end(self) -> Result<Self::Ok, Self::Error> {\n        if self.indefinite {", "    fn serialize_value<T: Serialize + ?Sized>(&mut self, v: &T) -> Result<(), Self::Error> {\n        v.serialize(&mut *self.serializer)\n    }\n\n    fn end(self) -> Result<Self::Ok, Self::Error> {\n        if self.indefinite && false {")])
+mut("c17-struct-variant-no-wrapper-len", ["C17"], "struct variants declare a two-entry wrapper map",
+    [(SER, "        self.encoder.map(1)?.str(variant)?;\n        self.serialize_struct(name, len)", "        self.encoder.map(2)?.str(variant)?;\n        self.serialize_struct(name, len)")])
+mut("c17-ignored-any-not-skipped", ["C17"], "deserialize_ignored_any does not skip tagged or nested values completely (skips only when the item is not an array)",
+    [(SDE, "        self.decoder.skip()?;\n        visitor.visit_unit() // ignored", "        if self.decoder.datatype()? == Type::Array { self.decoder.array()?; } else { self.decoder.skip()?; }\n        visitor.visit_unit() // ignored")])
+mut("c18-char-as-text", ["C18", "C17"], "the bridge serialises char as a text string",
+    [(SER, "        self.encoder.char(v)?;\n        Ok(())", "        let mut b = [0u8; 4];\n        self.encoder.str(v.encode_utf8(&mut b))?;\n        Ok(())")])
+mut("c18-f32-as-f64", ["C18", "C17"], "the bridge serialises f32 as a double",
+    [(SER, "        self.encoder.f32(v)?;", "        self.encoder.f64(v.into())?;")])
+mut("c18-unit-native-null", ["C18", "C01"], "the native codec encodes () as null (and accepts it)",
+    [(ENCRS, "impl<C> Encode<C> for () {\n    fn encode<W: Write>(&self, e: &mut Encoder<W>, _: &mut C) -> Result<(), Error<W::Error>> {\n        e.array(0)?.ok()", "impl<C> Encode<C> for () {\n    fn encode<W: Write>(&self, e: &mut Encoder<W>, _: &mut C) -> Result<(), Error<W::Error>> {\n        e.null()?.ok()"),
+     (DECRS, "impl<'b, C> Decode<'b, C> for () {\n    fn decode(d: &mut Decoder<'b>, _: &mut C) -> Result<Self, Error> {\n        let p = d.position();", "impl<'b, C> Decode<'b, C> for () {\n    fn decode(d: &mut Decoder<'b>, _: &mut C) -> Result<Self, Error> {\n        if d.datatype()? == crate::data::Type::Null { return d.null() }\n        let p = d.position();")])
+mut("c18-bridge-tuple-accepts-indefinite-short", ["C18"], "the bridge's tuple deserialisation accepts indefinite arrays and stops at the tuple length without consuming the break",
+    [(SDE, "        if Some(len as u64) != n {", "        if n.is_some() && Some(len as u64) != n {")])
+mut("c18-option-some-null-collision", ["C18"], "the bridge reads undefined as None as well",
+    [(SDE, "        if Type::Null == self.decoder.datatype()? {\n            self.decoder.skip()?;\n            visitor.visit_none()\n        } else {", "        if matches!(self.decoder.datatype()?, Type::Null | Type::Undefined) {\n            self.decoder.skip()?;\n            visitor.visit_none()\n        } else {")])
+
 def main():
     outdir = os.path.join(ROOT, "mutants")
     os.makedirs(outdir, exist_ok=True)
